@@ -692,7 +692,8 @@ RCU = "gmlc::libguarded::rcu_list"
 
 
 def rcu_writer_guard(ctx, rid, floor=20):
-    """every store to m_head / m_tail / node::next / node::back and every access
+    """every store to m_head / m_tail / node::next / node::back, every load of them made by a function that also
+    stores (a writer's read-modify-write of the structure must not be split by another writer) and every access
     to node::deleted in rcu_list's member functions happens with m_write_mutex
     held by a blocking RAII lock (mutations take effect one at a time; the
     deleted test-and-set is atomic, so a node gets exactly one log record)"""
@@ -705,15 +706,22 @@ def rcu_writer_guard(ctx, rid, floor=20):
         if f.kind in ("ctor", "dtor"):
             continue
         la = eng.locks(f)
+        mutator = any(op["op"] in ("store", "rmw", "cas") and re.search(r"::node \*>$", op["objtype"]) for op in atomic_ops(f))
         for op in atomic_ops(f):
-            if op["op"] not in ("store", "rmw", "cas"):
-                continue
+            if op["op"] not in ("store", "rmw", "cas") and not mutator:
+                continue        # readers (begin, iterators) follow the links without the mutex
             if not re.search(r"::node \*>$", op["objtype"]):
                 continue
             pos = f.pos_of(op["st"])
             ok = pos is not None and la.holds(pos, "this.m_write_mutex", "X")
+            why = "write mutex not held here"
+            if not ok and f.access != "public":
+                # a non-public linking helper inherits the lock from its callers: every call site must hold it
+                from .guards import _callers_hold
+                ok = _callers_hold(ctx, RCU, f, "this.m_write_mutex", "X")
+                why = "write mutex not held here, and not at every call of the private helper %s either" % f.name
             ctx.ob(rid, ok, f.loc(op["st"]), "%s of %s under m_write_mutex" % (op["name"], op["obj"]),
-                   "" if ok else "write mutex not held here", fn=f.label, inst=f.qname)
+                   "" if ok else why, fn=f.label, inst=f.qname)
             n += 1
         for st in f.stmts.values():
             if st["k"] == "MemberExpr" and st["m"].get("is_field") and st["m"]["name"] == "deleted" and \
@@ -746,8 +754,26 @@ def atomic_floors(ctx, rid, owners, floor=1, files=None):
         if not ops:
             continue
         la = locks_of(eng, fb, f)
+        from .engine import atomic_fields_may, atomic_param_of
+        expanded = []
         for op in ops:
-            fld = atomic_field_of(f, op)
+            flds = atomic_fields_may(f, op)
+            if flds:
+                expanded += [(op, fl, f, op["st"], la) for fl in flds]
+                continue
+            pn = atomic_param_of(f, op)
+            if pn and f.rec:
+                # helper taking std::atomic<T>&: judged once per call site, with the caller's lock context
+                idx = [i for i, pd in enumerate(f.params) if pd["name"] == pn]
+                for g in f.unit.functions:
+                    if g.invalid or (g.rec != f.rec and top_function(fb, g).rec != f.rec):
+                        continue
+                    for cs in g.stmts.values():
+                        if cs["k"] in CALLS and (cs.get("callee") or {}).get("id") == f.id and idx and idx[0] < len(cs["args"]):
+                            a = unwrap(g, g.s(cs["args"][idx[0]]))
+                            if a is not None and a["k"] == "MemberExpr" and a["m"].get("is_field"):
+                                expanded.append((op, (a["m"].get("rec"), a["m"]["name"]), g, cs, locks_of(eng, fb, g)))
+        for op, fld, hf, hst, hla in expanded:
             if fld is None or fld[0] not in owners:
                 continue
             ent = tab["fields"].get(fld[0], {}).get(fld[1])
@@ -758,11 +784,11 @@ def atomic_floors(ctx, rid, owners, floor=1, files=None):
             if kind == "other" or kind not in ent:
                 continue
             wm = tab["writer_mutex"].get(fld[0]) or tab["writer_mutex"].get("%s:%s" % fld)
-            pos = f.pos_of(op["st"])
+            pos = hf.pos_of(hst)
             c = "F"
             if wm and pos is not None:
                 # the mutex may be reached through another object (list.m_write_mutex): compare by suffix
-                for m, mode, _k in la.held_at(pos):
+                for m, mode, _k in hla.held_at(pos):
                     if m == wm or (m and m.split(".")[-1] == wm.split(".")[-1]):
                         c = "W" if "L" not in ent.get(kind, {}) else "L"
             want = ent[kind].get(c) or ent[kind].get("any") or ent[kind].get("F")
